@@ -521,6 +521,8 @@ class Interp:
             return FALSE
         if text == '()':
             return UNIT
+        if text == '[]' or text.startswith('[]:'):
+            return Agg('array', ())
         if text.startswith('ZeroSized: '):
             t = text[len('ZeroSized: '):].strip()
             if t.startswith('{closure@'):
@@ -625,7 +627,7 @@ class Interp:
         return text
 
     # ---------------------------------------------------------------- rvalues
-    def rvalue(self, fr, rv):
+    def rvalue(self, fr, rv, hint=None):
         k = rv.kind
         if k == 'use':
             return self.operand(fr, rv.a)
@@ -691,6 +693,10 @@ class Interp:
                     any(n == parts[-1] for n, _ in self.prog.enums[parts[-2]]):
                 return En(parts[-2], parts[-1], vals)
             th = parts[-1]
+            if len(parts) == 1 and hint:
+                eh = head(hint)
+                if eh in self.prog.enums and any(n == th for n, _ in self.prog.enums[eh]):
+                    return En(eh, th, vals)
             if th in self.prog.structs and not vals:
                 return Agg(th, ())
             # tuple struct constructor
@@ -833,7 +839,8 @@ class Interp:
             stmts, term = blocks[bb]
             for s in stmts:
                 if s.kind == 'assign':
-                    self.write_place(fr, s.place, self.rvalue(fr, s.rv))
+                    hint = fr.fn.locals.get(s.place.local) if (s.rv.kind == 'variant' and not s.place.proj) else None
+                    self.write_place(fr, s.place, self.rvalue(fr, s.rv, hint))
                 elif s.kind == 'setdiscr':
                     raise Unsupported("SetDiscriminant")
             k = term.kind
@@ -935,12 +942,17 @@ class Interp:
                 if tra and ta and head(tra[0]) != head(ta[0]):
                     continue
                 cands.append(f)
+            if not cands:
+                # default method body of the trait itself ("fn Trait::method")
+                for f in prog.free.get(method, []):
+                    if f.name == trh + '::' + method or f.name.endswith('::' + trh + '::' + method):
+                        return f, dict({'Self': m.group(1)}, **self._bind_generics(f, margs))
             if not cands and trh == 'Into':
                 # blanket Into<U> for T  ==  <U as From<T>>::from
                 tgt = head(tra[0]) if tra else None
                 for t, f in prog.methods.get((tgt, 'from'), []):
                     th, ta = split_generic(t or '')
-                    if ta and head(ta[0]) == sh:
+                    if ta and _arr_norm(head(ta[0])) == _arr_norm(sh):
                         cands.append(f)
             if not cands and trh == 'TryInto':
                 tgt = head(tra[0]) if tra else None
@@ -967,11 +979,14 @@ class Interp:
         if len(cands) > 1:
             raise Unsupported("ambiguous callee %s: %s" % (callee, [f.name for f in cands]))
         f = cands[0]
+        return f, self._bind_generics(f, margs)
+
+    def _bind_generics(self, f, margs):
         subst = {}
-        gens = prog.generics_of(f)
+        gens = self.prog.generics_of(f)
         for gname, garg in zip(gens, margs):
             subst[gname] = garg
-        return f, subst
+        return subst
 
     def call_closure(self, clo, args):
         """clo: Agg(closure type) | FnVal | Ref to closure; args: list of values"""
@@ -995,6 +1010,10 @@ class Interp:
                 env = clo
             return self.call_function(f, [env] + list(args), {})
         raise Unsupported("call of %r" % (clo,))
+
+
+def _arr_norm(t):
+    return re.sub(r';\s*\w+\]', '; _]', t)
 
 
 def _strip_generics(s):
